@@ -91,45 +91,7 @@ func c09(c *core.Ctx) {
 			// with Set (replace) after the metadata went in, or whatever writes the caller's entries into the same
 			// header map afterwards only appends (the server reads the first value)
 			{
-				hdr := w.call.Call.Args[0]
-				isSet := core.InfoOf(&w.call.Call).Name == "Set"
-				var later *ssa.Call
-				core.Instrs(w.fn, func(in ssa.Instruction) {
-					call, isCall := in.(*ssa.Call)
-					if !isCall || call == w.call || later != nil || !core.Reachable(core.After(w.call), call) {
-						return
-					}
-					st := core.InfoOf(&call.Call).Static
-					if st == nil || !strings.HasPrefix(core.InfoOf(&call.Call).Pkg, core.ModulePath) {
-						return
-					}
-					for ai, a := range call.Call.Args {
-						if core.TypeStr(a.Type()) != "net/http.Header" || !sameOrigins(a, hdr) || ai >= len(st.Params) {
-							continue
-						}
-						// does the callee replace entries of that parameter?
-						replaces := false
-						core.Instrs(st, func(x ssa.Instruction) {
-							switch y := x.(type) {
-							case *ssa.MapUpdate:
-								if core.OriginIs(y.Map, func(o ssa.Value) bool { return o == ssa.Value(st.Params[ai]) }) {
-									replaces = true
-								}
-							case *ssa.Call:
-								ci := core.InfoOf(&y.Call)
-								if ci.Is("net/http.Header.Set") && core.OriginIs(y.Call.Args[0], func(o ssa.Value) bool { return o == ssa.Value(st.Params[ai]) }) {
-									if _, isConst := core.ConstString(y.Call.Args[1]); !isConst {
-										replaces = true
-									}
-								}
-							}
-						})
-						if replaces {
-							later = call
-						}
-					}
-				})
-				_ = isSet
+				later := replacingWriterAfter(w.fn, w.call)
 				c.Check(later == nil, name+":transport-timeout-wins", w.call.Pos(), "no writer that replaces entries of the header map runs after the timeout store", "after the timeout header is stored, "+func() string {
 					if later != nil {
 						return core.InfoOf(&later.Call).Full()
@@ -850,4 +812,69 @@ func staleNow(call *ssa.Call) string {
 		return "the remaining time is measured against an instant that is not time.Now() taken in the encoder itself (" + core.ValName(o) + "): whatever runs between that instant and the header (credentials lookup, URL building) is not deducted, so the handler's deadline ends up later than the caller's"
 	}
 	return ""
+}
+
+// replacingWriterAfter: a call, reachable after the header store set, of a
+// module function that is handed the same header map and REPLACES entries of
+// it (assignment, or Header.Set with a variable key). A later writer that only
+// appends (Header.Add) leaves the first value, which is what readers take.
+func replacingWriterAfter(fn *ssa.Function, set *ssa.Call) *ssa.Call {
+	hdr := set.Call.Args[0]
+	var later *ssa.Call
+	core.Instrs(fn, func(in ssa.Instruction) {
+		call, isCall := in.(*ssa.Call)
+		if !isCall || call == set || later != nil || !core.Reachable(core.After(set), call) {
+			return
+		}
+		st := core.InfoOf(&call.Call).Static
+		if st == nil || !strings.HasPrefix(core.InfoOf(&call.Call).Pkg, core.ModulePath) {
+			return
+		}
+		for ai, a := range call.Call.Args {
+			if core.TypeStr(a.Type()) != "net/http.Header" || !sameHeaderMap(a, hdr) || ai >= len(st.Params) {
+				continue
+			}
+			replaces := false
+			core.Instrs(st, func(x ssa.Instruction) {
+				switch y := x.(type) {
+				case *ssa.MapUpdate:
+					if core.OriginIs(y.Map, func(o ssa.Value) bool { return o == ssa.Value(st.Params[ai]) }) {
+						replaces = true
+					}
+				case *ssa.Call:
+					ci := core.InfoOf(&y.Call)
+					if ci.Is("net/http.Header.Set") && core.OriginIs(y.Call.Args[0], func(o ssa.Value) bool { return o == ssa.Value(st.Params[ai]) }) {
+						if _, isConst := core.ConstString(y.Call.Args[1]); !isConst {
+							replaces = true
+						}
+					}
+				}
+			})
+			if replaces {
+				later = call
+			}
+		}
+	})
+	return later
+}
+
+// sameHeaderMap: two header-map expressions denote the same map: a common
+// origin, or both are w.Header() of the same response writer.
+func sameHeaderMap(a, b ssa.Value) bool {
+	if sameOrigins(a, b) {
+		return true
+	}
+	for _, x := range core.Origins(a) {
+		cx, _, okx := core.CallResult(x)
+		if !okx || !cx.Call.IsInvoke() || cx.Call.Method.Name() != "Header" {
+			continue
+		}
+		for _, y := range core.Origins(b) {
+			cy, _, oky := core.CallResult(y)
+			if oky && cy.Call.IsInvoke() && cy.Call.Method.Name() == "Header" && sameOrigins(cx.Call.Value, cy.Call.Value) {
+				return true
+			}
+		}
+	}
+	return false
 }
